@@ -157,11 +157,15 @@ def run(chk, repo):
                key=fi.qual + f'::{k}', fn=fi.qual)
 
     # pairing of offsets and tolerance ranges
-    chk.rule('C17.e', 'tolerance tests pair start_offset with intron_start_range and end_offset with intron_end_range; CIRCexplorer3 thresholds all effective', 5)
+    chk.rule('C17.e', 'tolerance tests pair start_offset with intron_start_range and end_offset with intron_end_range; CIRCexplorer3 thresholds all effective', 3)
     for n in ast.walk(fi.node):
         if isinstance(n, ast.Compare) and len(n.ops) == 1 and isinstance(n.ops[0], ast.In) and unparse(n.left) in ('start_offset', 'end_offset'):
             want = 'intron_start_range' if unparse(n.left) == 'start_offset' else 'intron_end_range'
-            chk.ob('C17.e', f"'{unparse(n)}' pairs offset and range of the same end", repo.loc(fi, n), unparse(n.comparators[0]) == want,
+            cmp_ = n.comparators[0]
+            from sa import sem as _sem
+            okp = unparse(cmp_) == want or (isinstance(cmp_, ast.Name) and want in _sem.defining_text(fi.node, cmp_.id)
+                                            and ('intron_start_range' if want == 'intron_end_range' else 'intron_end_range') not in _sem.defining_text(fi.node, cmp_.id))
+            chk.ob('C17.e', f"'{unparse(n)}' pairs offset and range of the same end", repo.loc(fi, n), okp,
                    f"'{unparse(n)}' tests an offset against the tolerance of the other intron end", key=fi.qual + f"::pairing::{unparse(n.left)}::{n.lineno - fi.node.lineno > 60}", fn=fi.qual)
     v3 = repo.func('parser.CIRCexplorerParser:CIRCexplorer3KnownRecord.is_valid')
     chk.uses(v3)
